@@ -108,14 +108,14 @@ type cacheEntry struct {
 	v          pool.Buffer
 }
 
-var cacheEntryPool = sync.Pool{
-	New: func() any { return new(cacheEntry) },
-}
-
+// Note: entries are not recycled. The backend may call the deletion listener
+// more than once for one entry (once per internal task that involves it), so
+// an entry that was put into a pool there could be handed out twice.
 func newCacheEntry() *cacheEntry {
-	return cacheEntryPool.Get().(*cacheEntry)
+	return new(cacheEntry)
 }
 
+// releaseEntry releases the value of e. It is safe to call it more than once.
 func releaseEntry(e *cacheEntry) {
 	e.l.Lock()
 	e.storedTime = time.Time{}
@@ -126,5 +126,4 @@ func releaseEntry(e *cacheEntry) {
 		e.v = nil
 	}
 	e.l.Unlock()
-	cacheEntryPool.Put(e)
 }
